@@ -38,12 +38,46 @@ class GlobalsWrapper():
             return self.gbls[name]
 
         if name in self.ecfg._cfgobj:
-            with self.ctx.require_all_safe(self.node, self.path):
-                return self.ecfg[name]
+            return CheckedConfigView(self.ecfg, self)[name]
         elif name in __builtins__:
             return __builtins__[name]
         else:
             raise NameError(name)
+
+class CheckedConfigView():
+    ''' What the evaluated code gets when it reaches for a part of the config that is not (fully) evaluated yet,
+        including ``ayns.cfg``. Entries are evaluated lazily, when they are accessed, hence each access has to happen
+        under the same "everything evaluated on the way must be safe" requirement as the lookup of a top-level name.
+    '''
+    def __init__(self, partial, wrapper):
+        self._partial = partial
+        self._wrapper = wrapper
+
+    def __getitem__(self, key):
+        wrapper = self._wrapper
+        with wrapper.ctx.require_all_safe(wrapper.node, wrapper.path):
+            ret = self._partial[key]
+        if isinstance(ret, type(wrapper.ecfg)): # still a placeholder, keep checking accesses to its content
+            ret = CheckedConfigView(ret, wrapper)
+        return ret
+
+    def __getattr__(self, name):
+        if name.startswith('_'):
+            raise AttributeError(name)
+        return self[name]
+
+    def __contains__(self, key):
+        return key in self._partial._cfgobj
+
+    def __iter__(self):
+        return iter(self._partial._cfgobj)
+
+    def __len__(self):
+        return len(self._partial._cfgobj)
+
+    def __repr__(self):
+        return f'<Partially evaluated config node {self._partial._path!r}>'
+
 
 class GlobalsWithFallback(dict):
     ''' Globals of the evaluated code for interpreters whose bytecode is not patched (see ``EvalNode._patch_access_to_globals``):
@@ -121,10 +155,12 @@ class EvalNode(ConfigScalar(str)):
         # (newer interpreters changed the layout again: shifted LOAD_ATTR arguments, more inline caches, ...),
         # for newer versions run the unmodified code with a dict which resolves missing names on its own
         patch_bytecode = not python_is_at_least(3, 12)
+        wrapper = GlobalsWrapper(gbls, ctx.ecfg, ctx, self, path)
+        gbls['ayns'].cfg = CheckedConfigView(ctx.ecfg, wrapper) # same safety rules as for access by plain names
         if patch_bytecode:
-            gbls[EvalNode._globals_wrapper_name] = GlobalsWrapper(gbls, ctx.ecfg, ctx, self, path)
+            gbls[EvalNode._globals_wrapper_name] = wrapper
         else:
-            gbls = GlobalsWithFallback(gbls, GlobalsWrapper(gbls, ctx.ecfg, ctx, self, path))
+            gbls = GlobalsWithFallback(gbls, wrapper)
 
         lines = self.strip().split('\n')
         lines = [lline for line in lines for lline in line.split(';')]
